@@ -74,7 +74,7 @@ fn build(ch: &mut Chooser, fmt: &str) -> Case {
             }
             b.sheets.push(sh);
         }
-        xlsx::write(&b, &xlsx::XEnc { sheet_subfolder: ch.flag("xlsx.sheet-parts-in-a-sub-folder"), odd_table_part_names: !tables.is_empty() && ch.flag("xlsx.table-parts-outside-xl/tables"), prefix: ch.flag("xlsx.prefix"), indent: ch.flag("xlsx.indented"), comments: ch.flag("xlsx.comments-between-elements"), extras: ch.flag("xlsx.optional-neighbours-of-sheetData"), rels_target_first: ch.flag("xlsx.rels-target-before-type"), ..Default::default() })
+        xlsx::write(&b, &xlsx::XEnc { target: if ch.flag("xlsx.relationship-targets-absolute") { xlsx::TargetMode::AbsoluteXl } else { xlsx::TargetMode::Relative }, sheet_subfolder: ch.flag("xlsx.sheet-parts-in-a-sub-folder"), odd_table_part_names: !tables.is_empty() && ch.flag("xlsx.table-parts-outside-xl/tables"), prefix: ch.flag("xlsx.prefix"), indent: ch.flag("xlsx.indented"), comments: ch.flag("xlsx.comments-between-elements"), extras: ch.flag("xlsx.optional-neighbours-of-sheetData"), rels_target_first: ch.flag("xlsx.rels-target-before-type"), ..Default::default() })
     } else {
         let mut b = biff8::BBook::default();
         for (i, n) in sheets.iter().enumerate() {
